@@ -22,7 +22,7 @@ ASSUMPTIONS = ["reference expansion semantics in this module (cross product, OR-
                "decoder mc/qparse.py; verification backend K0"]
 PARTS = ["a", "*", "%P1%", "%P2%", "%P3%", "\\%x\\%"]
 RE_PARTS = ["a", ".*", "%P1%", "%P2%", "\\%x\\%"]
-MODS = ["", "contains", "startswith", "endswith", "all", "all1"]  # all1: the 'all' modifier on a single value
+MODS = ["", "contains", "startswith", "endswith", "all", "all1", "cased", "cased|contains"]  # all1: the 'all' modifier on a single value
 VARTABLES = {
     "T0": {"P1": ["x", "y"], "P2": "z", "P3": 7},
     "T1": {"P1": ["x"], "P2": ["u", "v", "w*"]},
@@ -223,7 +223,7 @@ def reference(pos, mod, value, items, vt):
                     raise RuleFails("invalid regex after expansion")
             outs.append(F.OR([F.a_re(field, t, ()) for t in texts]))
         return F.AND(outs) if mod == "all" else F.OR(outs)
-    chain = ["expand"] + ([mod] if mod else [])
+    chain = ["expand"] + (mod.split("|") if mod else [])
     try:
         vals, linking, neg = R.apply_chain(raw, chain, has_field=field is not None)
     except R.Reject:
@@ -240,7 +240,7 @@ def reference(pos, mod, value, items, vt):
                     raise RuleFails("query expression with {field} on a keyword")
                 fs.append(F.a_query(field, x[1]))
             else:
-                fs.append(F.a_str(field, False, x[1]))
+                fs.append(F.a_str(field, bool(v[1]), x[1]))  # replacements keep the case sensitivity of the value
         outs.append(F.OR(fs))
     return F.AND(outs) if linking == "and" else F.OR(outs)
 
@@ -330,6 +330,8 @@ def space(tier):
     for pos, alpha, n in (("str", PARTS, b["parts"]), ("kw", PARTS, b["parts"]), ("re", RE_PARTS, b["re_parts"])):
         for v in values(alpha, n):
             for mod in MODS:
+                if mod.startswith("cased") and pos != "str":
+                    continue  # case-sensitive matching is defined for field-bound strings only
                 yield pos, mod, v, pls
 
 
